@@ -18,7 +18,8 @@ EXPLANATION = (
     'fragment list is emptied after each message; (dispatch) the opcode->message-class table, each class\'s own opcode '
     'and is_* property, and the event dispatch in WebSocket.feed agree, each branch yielding one event carrying the '
     'message\'s own payload attribute; (length) the payload read count is the decoded wire length; (join) the payload '
-    'is the in-order join of every fragment; per-frame bookkeeping runs for every frame.')
+    'is the in-order join of every fragment; per-frame bookkeeping runs for every frame.'
+    ' Also decided: package-wide isolation (objects created once per class or per function definition - class-level attributes, parameter defaults - are only read), so that no buffer, validator, cache, lock or option table is shared between connections by accident.')
 NOT_DECIDED = 'that the joined bytes equal what the server sent (value statement); UTF-8 decoding equality'
 ASSUMPTIONS = ['list.append / bytes.join preserve order', 'bytearray slices, bytes(), bytearray(), bytearray.extend copy; '
                'memoryview slices alias']
